@@ -65,3 +65,70 @@ pub fn handle_split_record_error(
 ) -> std::result::Result<Option<Record>, NetworkError> {
     Network::handle_split_record_error(result_map, key)
 }
+
+// ---------------------------------------------------------------------------------------------
+// Several drivers wired together in-process by an external transport (replication, C09)
+// ---------------------------------------------------------------------------------------------
+
+/// Hooks into `event::request_response` (the `Cmd::Replicate` request handler).
+pub use super::request_response::verif as request_response;
+
+/// Routing-table insertion: `kademlia.add_address` (what the identify handler does for a new peer).
+pub fn add_address(driver: &mut SwarmDriver, peer: &PeerId, addr: libp2p::Multiaddr) -> bool {
+    matches!(
+        driver.swarm.behaviour_mut().kademlia.add_address(peer, addr),
+        kad::RoutingUpdate::Success
+    )
+}
+
+/// `SwarmDriver::get_closest_k_value_local_peers`.
+pub fn closest_k_value_local_peers(driver: &mut SwarmDriver) -> Vec<PeerId> {
+    driver.get_closest_k_value_local_peers()
+}
+
+/// The two assignments of the run loop's `set_farthest_record_interval` branch: the record store's
+/// distance range and the replication fetcher's copy of it.
+pub fn set_distance_range(driver: &mut SwarmDriver, distance: ant_evm::U256) {
+    driver
+        .swarm
+        .behaviour_mut()
+        .kademlia
+        .store_mut()
+        .set_distance_range(distance);
+    driver
+        .replication_fetcher
+        .set_replication_distance_range(distance);
+}
+
+/// One queue entry of the driver's replication fetcher: key, record type, holder, deadline.
+pub type FetcherEntry = (
+    RecordKey,
+    ant_protocol::storage::RecordType,
+    PeerId,
+    std::time::Instant,
+);
+
+/// Read-only copies of `to_be_fetched` and `on_going_fetches` of the driver's replication fetcher.
+pub fn replication_fetcher_queues(driver: &SwarmDriver) -> (Vec<FetcherEntry>, Vec<FetcherEntry>) {
+    crate::replication_fetcher::verif::queues_of(&driver.replication_fetcher)
+}
+
+/// Simulate `d` of time passing for the replication machinery of this driver: every deadline of the
+/// replication fetcher, `last_replication` and every `replication_targets` timestamp move back by `d`.
+/// Returns false if some `Instant` could not be moved that far back (it is then left unchanged).
+pub fn age_replication(driver: &mut SwarmDriver, d: std::time::Duration) -> bool {
+    let mut ok = crate::replication_fetcher::verif::age_of(&mut driver.replication_fetcher, d);
+    if let Some(t) = driver.last_replication {
+        match t.checked_sub(d) {
+            Some(x) => driver.last_replication = Some(x),
+            None => ok = false,
+        }
+    }
+    for t in driver.replication_targets.values_mut() {
+        match t.checked_sub(d) {
+            Some(x) => *t = x,
+            None => ok = false,
+        }
+    }
+    ok
+}
